@@ -29,7 +29,7 @@ controller that has not evicted and every value: the cell equals the number of l
 theorem cell_eq_live (rules : List Rule) (ops : List Op) :
     ∀ t ∈ (run (init rules) ops).tcs, t.ev = false → ∀ v, v ≠ Val.nil →
       cellOf t.cache v = (liveOf t.rule v (run (init rules) ops).live : Int) :=
-  fun t ht hev v hv => inv_run _ ops (inv_init rules) t ht hev v hv
+  fun t ht hev v hv => (inv_run _ ops (inv_init rules)).1 t ht hev v hv
 
 /-- **returns to zero**: once every admitted entry has been exited, every cell is 0 -/
 theorem returns_to_zero (rules : List Rule) (ops : List Op) (hall : (run (init rules) ops).live = []) :
@@ -67,6 +67,20 @@ theorem rules_fixed (rules : List Rule) (ops : List Op) :
           apply List.map_congr_left
           intro t _; simp
       | flowBlock res => rfl
+      | check id res a at' =>
+        simp only [step]; split
+        · rfl
+        · unfold check; split
+          · rfl
+          · exact checkTcs_rules ..
+      | commit id =>
+        simp only [step]; unfold commit; split
+        · rfl
+        · split
+          · simp only [List.map_map]
+            apply List.map_congr_left
+            intro t _; simp
+          · rfl
   rw [key]
   simp [init, load, List.map_map, Function.comp_def]
 
@@ -134,7 +148,7 @@ theorem admit_iff_partial (rules : List Rule) (ops : List Op) (id res : String) 
       (¬ res ∈ (run (init rules) ops).fb ∧
        ∀ t ∈ (run (init rules) ops).tcs, t.rule.sel res a at' ≠ Val.nil →
          (liveOf t.rule (t.rule.sel res a at') (run (init rules) ops).live : Int) < t.rule.thrOf (t.rule.sel res a at')) := by
-  have hinv := inv_run _ ops (inv_init rules)
+  have hinv := (inv_run _ ops (inv_init rules)).1
   generalize run (init rules) ops = s at *
   unfold entry
   by_cases hfb : s.fb.contains res = true
@@ -257,18 +271,27 @@ theorem admitted_counted (s : St) (id res : String) (a : List Val) (at' : List (
     · simp only [h1, h2, Bool.false_eq_true, if_false]
 
 /-- **the arguments of a live entry are the ones it was created with** (observation `Input.Args` of live entries):
-every entry of the ledger stems from an `entry` op of the history with exactly these arguments -/
+every entry of the ledger stems from an `entry` (or two-step `check`) op of the history with exactly these arguments,
+and so does every parked entry -/
 theorem args_stable (rules : List Rule) (ops : List Op) :
-    ∀ e ∈ (run (init rules) ops).live, Op.entry e.id e.res e.args e.atts ∈ ops := by
-  have key : ∀ (ops : List Op) (s : St), ∀ e ∈ (run s ops).live,
-      e ∈ s.live ∨ Op.entry e.id e.res e.args e.atts ∈ ops := by
+    ∀ e ∈ (run (init rules) ops).live,
+      Op.entry e.id e.res e.args e.atts ∈ ops ∨ Op.check e.id e.res e.args e.atts ∈ ops := by
+  have key : ∀ (ops : List Op) (s : St),
+      (∀ e ∈ (run s ops).live, e ∈ s.live ∨ (∃ p ∈ s.pend, p.id = e.id ∧ p.res = e.res ∧ p.args = e.args ∧ p.atts = e.atts) ∨
+        Op.entry e.id e.res e.args e.atts ∈ ops ∨ Op.check e.id e.res e.args e.atts ∈ ops) ∧
+      (∀ p ∈ (run s ops).pend, p ∈ s.pend ∨ Op.check p.id p.res p.args p.atts ∈ ops) := by
     intro ops
     induction ops with
-    | nil => intro s e he; exact Or.inl he
+    | nil => intro s; exact ⟨fun e he => Or.inl he, fun p hp => Or.inl hp⟩
     | cons op ops ih =>
-      intro s e he
-      rcases ih (step s op) e he with h | h
-      · cases op with
+      intro s
+      obtain ⟨ih1, ih2⟩ := ih (step s op)
+      -- what one step does to the ledger and to the parked entries
+      have hl : ∀ e ∈ (step s op).live, e ∈ s.live ∨
+          (∃ p ∈ s.pend, p.id = e.id ∧ p.res = e.res ∧ p.args = e.args ∧ p.atts = e.atts) ∨
+          op = Op.entry e.id e.res e.args e.atts := by
+        intro e h
+        cases op with
         | entry id res a at' =>
           simp only [step] at h
           split at h
@@ -276,7 +299,7 @@ theorem args_stable (rules : List Rule) (ops : List Op) :
           · by_cases hp : (entry s id res a at').2 = Res.pass
             · rw [admitted_counted s id res a at' hp] at h
               rcases List.mem_cons.mp h with rfl | h
-              · exact Or.inr (List.mem_cons_self ..)
+              · exact Or.inr (Or.inr rfl)
               · exact Or.inl h
             · rw [blocked_not_counted s id res a at' hp] at h
               exact Or.inl h
@@ -287,11 +310,142 @@ theorem args_stable (rules : List Rule) (ops : List Op) :
           · exact Or.inl h
           · exact Or.inl (List.mem_of_mem_eraseP h)
         | flowBlock res => exact Or.inl h
-      · exact Or.inr (List.mem_cons_of_mem _ h)
+        | check id res a at' =>
+          simp only [step] at h
+          split at h
+          · exact Or.inl h
+          · unfold check at h; split at h <;> exact Or.inl h
+        | commit id =>
+          simp only [step] at h
+          unfold commit at h
+          split at h
+          · exact Or.inl h
+          · rename_i p hf
+            split at h
+            · rcases List.mem_cons.mp h with rfl | h
+              · exact Or.inr (Or.inl ⟨p, find_mem _ _ _ hf, rfl, rfl, rfl, rfl⟩)
+              · exact Or.inl h
+            · exact Or.inl h
+      have hpd : ∀ p ∈ (step s op).pend, p ∈ s.pend ∨ op = Op.check p.id p.res p.args p.atts := by
+        intro p h
+        cases op with
+        | entry id res a at' =>
+          simp only [step] at h
+          split at h
+          · exact Or.inl h
+          · unfold entry at h
+            split at h
+            · exact Or.inl h
+            · dsimp only at h; split at h <;> exact Or.inl h
+        | exit id =>
+          simp only [step] at h
+          unfold exit at h
+          split at h <;> exact Or.inl h
+        | flowBlock res => exact Or.inl h
+        | check id res a at' =>
+          simp only [step] at h
+          split at h
+          · exact Or.inl h
+          · unfold check at h
+            split at h
+            · rcases List.mem_cons.mp h with rfl | h
+              · exact Or.inr rfl
+              · exact Or.inl h
+            · dsimp only at h
+              rcases List.mem_cons.mp h with rfl | h
+              · exact Or.inr rfl
+              · exact Or.inl h
+        | commit id =>
+          simp only [step] at h
+          unfold commit at h
+          split at h
+          · exact Or.inl h
+          · split at h <;> exact Or.inl (List.mem_of_mem_eraseP h)
+      refine ⟨?_, ?_⟩
+      · intro e he
+        rcases ih1 e he with h | ⟨p, hp, h1, h2, h3, h4⟩ | h | h
+        · rcases hl e h with h | h | h
+          · exact Or.inl h
+          · exact Or.inr (Or.inl h)
+          · exact Or.inr (Or.inr (Or.inl (h ▸ List.mem_cons_self ..)))
+        · rcases hpd p hp with h | h
+          · exact Or.inr (Or.inl ⟨p, h, h1, h2, h3, h4⟩)
+          · refine Or.inr (Or.inr (Or.inr ?_))
+            rw [← h1, ← h2, ← h3, ← h4, ← h]; exact List.mem_cons_self ..
+        · exact Or.inr (Or.inr (Or.inl (List.mem_cons_of_mem _ h)))
+        · exact Or.inr (Or.inr (Or.inr (List.mem_cons_of_mem _ h)))
+      · intro p hp
+        rcases ih2 p hp with h | h
+        · rcases hpd p h with h | h
+          · exact Or.inl h
+          · exact Or.inr (h ▸ List.mem_cons_self ..)
+        · exact Or.inr (List.mem_cons_of_mem _ h)
   intro e he
-  rcases key ops (init rules) e he with h | h
+  rcases (key ops (init rules)).1 e he with h | ⟨p, hp, _⟩ | h
   · simp [init, load] at h
+  · simp [init, load] at hp
   · exact h
+
+/-! ## schedules -/
+
+/-- a sequential `api.Entry` is the two steps run back to back -/
+theorem entry_eq_check_commit (s : St) (id res : String) (a : List Val) (at' : List (String × Val)) :
+    (commit (check s id res a at') id).2 = some (entry s id res a at').2 ∧
+    (commit (check s id res a at') id).1.tcs = (entry s id res a at').1.tcs ∧
+    (commit (check s id res a at') id).1.live = (entry s id res a at').1.live ∧
+    (commit (check s id res a at') id).1.pend = s.pend := by
+  by_cases h1 : s.fb.contains res = true
+  · have hc : check s id res a at' =
+        { s with pend := { id := id, res := res, args := a, atts := at', verdict := Res.blockFlow } :: s.pend } := by
+      simp only [check, h1, if_true]
+    have he : entry s id res a at' = (s, Res.blockFlow) := by simp only [entry, h1, if_true]
+    rw [hc, he]
+    simp [commit, List.find?, List.eraseP]
+  · by_cases h2 : (checkTcs res a at' s.tcs).2 = true
+    · have hc : check s id res a at' =
+          { s with tcs := (checkTcs res a at' s.tcs).1,
+                   pend := { id := id, res := res, args := a, atts := at', verdict := Res.blockHot } :: s.pend } := by
+        simp only [check, h1, h2, Bool.false_eq_true, if_false, if_true]
+      have he : entry s id res a at' = ({ s with tcs := (checkTcs res a at' s.tcs).1 }, Res.blockHot) := by
+        simp only [entry, h1, h2, Bool.false_eq_true, if_false, if_true]
+      rw [hc, he]
+      simp [commit, List.find?, List.eraseP]
+    · have hc : check s id res a at' =
+          { s with tcs := (checkTcs res a at' s.tcs).1,
+                   pend := { id := id, res := res, args := a, atts := at', verdict := Res.pass } :: s.pend } := by
+        simp only [check, h1, h2, Bool.false_eq_true, if_false]
+      have he : entry s id res a at' =
+          ({ s with tcs := (checkTcs res a at' s.tcs).1.map (fun t => t.bump res a at' 1),
+                    live := { id := id, res := res, args := a, atts := at' } :: s.live }, Res.pass) := by
+        simp only [entry, h1, h2, Bool.false_eq_true, if_false]
+      rw [hc, he]
+      simp [commit, List.find?, List.eraseP]
+
+/-- **admission under any schedule**: whatever interleaving of check / commit / exit steps of any number of
+goroutines led to the state, the verdict fixed by a `check` step is "pass" iff no other slot blocks and, for every rule
+selecting a value `v`, fewer *completed* admissions for `v` are in flight than `v`'s threshold — requests that are
+themselves between their check and their commit are not counted (see `overshoot_witness`). Same proviso as
+`admit_iff_partial`. -/
+theorem check_verdict_iff (rules : List Rule) (ops : List Op) (id res : String) (a : List Val) (at' : List (String × Val))
+    (hev : ∀ t ∈ (run (init rules) ops).tcs, t.ev = false)
+    (hp : ∀ t ∈ (run (init rules) ops).tcs, t.rule.sel res a at' ≠ Val.nil →
+      (t.cache.lookup (t.rule.sel res a at')).isSome = true ∨ 0 < t.rule.thrOf (t.rule.sel res a at')) :
+    (commit (check (run (init rules) ops) id res a at') id).2 = some Res.pass ↔
+      (¬ res ∈ (run (init rules) ops).fb ∧
+       ∀ t ∈ (run (init rules) ops).tcs, t.rule.sel res a at' ≠ Val.nil →
+         (liveOf t.rule (t.rule.sel res a at') (run (init rules) ops).live : Int) < t.rule.thrOf (t.rule.sel res a at')) := by
+  rw [(entry_eq_check_commit _ id res a at').1, ← admit_iff_partial rules ops id res a at' hev hp]
+  simp
+
+/-- known finding `check-then-act-overshoot`: threshold 1; two goroutines run their checks before either has run
+its statistic slot: both are admitted, two entries for one value are in flight (the cells stay exact: 2). -/
+def raceOps : List Op :=
+  [.check "e1" "r" [Val.str "a"] [], .check "e2" "r" [Val.str "a"] [], .commit "e1", .commit "e2"]
+
+theorem overshoot_witness :
+    liveOf { res := "r", thr := 1 } (Val.str "a") (run (init [{ res := "r", thr := 1 }]) raceOps).live = 2 ∧
+    (run (init [{ res := "r", thr := 1 }]) raceOps).tcs.map (fun t => cellOf t.cache (Val.str "a")) = [2] ∧
+    ({ res := "r", thr := 1 } : Rule).thrOf (Val.str "a") = 1 := by decide
 
 /-! ## deviations of the code from the statement (faithful model, concrete witnesses) -/
 
